@@ -205,6 +205,9 @@ pub enum Event {
     CrashPanic { cut: usize, msg: String },
     #[serde(rename = "cancel")]
     Cancel { n: usize, polls: usize },
+    /// a controlled schedule / watchdog did not complete
+    #[serde(rename = "hang")]
+    Hang { at: usize },
     #[serde(rename = "reset")]
     Reset,
 }
